@@ -736,7 +736,10 @@ with PolarsImpl.impl_store.impl_manager as impl:
         return x.cum_sum().fill_null(strategy="forward")
 
     @impl(ops.list_agg)
-    def _list_agg(x, *, _empty_group_by: bool):
+    def _list_agg(x, *, _empty_group_by: bool = True):
+        # Only `summarize` with a non-empty group_by collects the values implicitly (and
+        # passes `_empty_group_by=False`); everywhere else (e.g. window usage in `mutate`)
+        # we have to implode ourselves.
         if _empty_group_by:
             return x.implode()
         return x
